@@ -3,7 +3,7 @@ pub proof fn lemma_wf_back_ok<C: ConnectorCost>(l: Lattice, c: &C)
     requires l.wf(c),
     ensures l.back_ok(),
 {
-    assert forall|e: int, k: int| 1 <= e < l.ends.len() && 0 <= k < l.ends[e].len() implies
+    assert forall|e: int, k: int| 1 <= e <= l.len_char && 0 <= k < l.ends[e].len() implies
         #[trigger] back_node_ok(l.ends@, e, l.ends[e][k]) by {
         assert(node_ok(l.ends@, e, l.ends[e][k], c));
     }
@@ -70,7 +70,7 @@ pub proof fn lemma_insert_keeps_wf<C: ConnectorCost>(o: Lattice, n: Lattice, sn:
     lemma_mul_succ(sn, kk);
     lemma_mul_mono(sn + 1, ew, kk);
     assert(n.ends[sn] == o.ends[sn]);
-    assert forall|e: int, k: int| 1 <= e < n.ends.len() && 0 <= k < n.ends[e].len() implies
+    assert forall|e: int, k: int| 1 <= e <= n.len_char && 0 <= k < n.ends[e].len() implies
         #[trigger] node_ok(n.ends@, e, n.ends[e][k], c) && (n.ends[e][k].start_node as int) <= sn by {
         if e == ew && k == o.ends[ew].len() {
             assert(n.ends[e][k] == x);
@@ -86,11 +86,8 @@ pub proof fn lemma_insert_keeps_wf<C: ConnectorCost>(o: Lattice, n: Lattice, sn:
             assert(n.ends[m.start_node as int] == o.ends[m.start_node as int]);
         }
     }
-    assert forall|e: int| 0 <= e < n.ends.len() implies (#[trigger] n.ends[e]).len() <= 0xffff by {
+    assert forall|e: int| 0 <= e <= n.len_char implies (#[trigger] n.ends[e]).len() <= 0xffff by {
         if e == ew { assert(n.ends[ew]@.len() == o.ends[ew]@.len() + 1); } else { assert(n.ends[e] == o.ends[e]); }
-    }
-    assert forall|e: int| n.len_char < e < n.ends.len() implies (#[trigger] n.ends[e]).len() == 0 by {
-        assert(n.ends[e] == o.ends[e]);
     }
     assert(n.ends[0] == o.ends[0]);
 }
